@@ -636,16 +636,16 @@ pub fn check_c20(case: &C20Case) -> Result<CaseInfo, Failure> {
     }
 
     let (c, mut info) = base_info(&trace);
-    // a name reused by a different datum in a later variant cannot happen with fresh names; the
-    // non-trivial rule is: >= 3 source variants, a removal followed by a later addition, and a target
-    // strategy different from the source's for at least one variant.
+    // non-trivial: >= 3 source variants, a removal followed by a later addition, a name reused by a
+    // different datum in a later variant, and a target strategy different from the source's for at
+    // least one variant.
     let differs = trace
         .closes
         .iter()
         .filter(|c| c.created)
         .enumerate()
         .any(|(i, cl)| case.target_strats[i % case.target_strats.len()] != cl.strat);
-    info.nontrivial = c.ge3_variants && c.removal_then_later_add && differs;
+    info.nontrivial = c.ge3_variants && c.removal_then_later_add && differs && c.name_reused;
     Ok(info)
 }
 
@@ -738,7 +738,7 @@ pub fn run_c20(seed: u64, cases: u64, threads: usize) -> (Outcome, String) {
          (a) a native builder closing with a generated strategy sequence and (b) a generic builder; the map must have one \
          entry per source variant in increasing order, each pair must hold the same multiset of (name, type info, uninit \
          flag), and the source->target datum correspondence must be a function and injective over all variants. \
-         non-trivial: >= 3 source variants, an addition after a removal, and a target strategy differing from the source's; \
+         non-trivial: >= 3 source variants, an addition after a removal, a name reused by a different datum in a later variant, and a target strategy differing from the source's; \
          distinct by hash of (history, target strategies)"
             .into(),
     )
